@@ -128,7 +128,13 @@ func NewInterceptedTransaction(
 		txSignHasher:           txSignHasher,
 	}
 
-	err = inTx.processFields(txBuff)
+	// the hash must identify the content, not the particular byte string received:
+	// it is computed over the canonical re-encoding of the decoded value
+	canonicalBuff, err := protoMarshalizer.Marshal(tx)
+	if err != nil {
+		return nil, err
+	}
+	err = inTx.processFields(canonicalBuff)
 	if err != nil {
 		return nil, err
 	}
